@@ -577,22 +577,22 @@ Proof.
     destruct Hm as [E|E]; [|destruct (H1 E) as (X & _); discriminate].
     destruct (H0 E) as (Eq & Er & Hn & _ & ws & Esc & Hws).
     unfold cur_mode. rewrite Esc, Hls. cbn [N.eqb orb].
-    unfold a_finish. constructor; cbn; auto; try (intros; discriminate).
-    + unfold pipeS, hand_c, hand_r in *. cbn. exact Heq.
-    + intros _. rewrite Esc. cbn. split; auto. apply a_begin_waits; auto.
+    unfold a_finish. constructor; cbn; auto; try (intros; discriminate);
+      try (unfold pipeS, hand_c, hand_r in *; cbn; exact Heq).
+    intros _. rewrite Esc. cbn. split; auto. apply a_begin_waits; auto.
   - (* E3: the synchronous queue is cleared first *)
     destruct Hm as [E|E]; [|destruct (H1 E) as (X & _); discriminate].
     destruct (H0 E) as (Eq & Er & Hn & _ & ws & Esc & Hws).
     unfold cur_mode. rewrite Esc, Hls. cbn [N.eqb orb].
-    constructor; cbn; auto; try (intros; discriminate).
-    + unfold pipeS, hand_c, hand_r in *. cbn. rewrite Eq in Heq. exact Heq.
-    + intros _. repeat split; auto. exists ws; auto.
-    + intro E'. rewrite E in E'. discriminate.
+    constructor; cbn; auto; try (intros; discriminate);
+      try (unfold pipeS, hand_c, hand_r in *; cbn; rewrite Eq in Heq; exact Heq);
+      try (intro E'; rewrite E in E'; discriminate).
+    intros _. repeat split; auto. exists ws; auto.
   - (* K1 *)
     destruct Hm as [E|E]; [destruct (H0 E) as (_ & _ & _ & [X|X] & _); discriminate|].
     destruct (H1 E) as (_ & Hws). rewrite E. cbn [N.leb N.compare Pos.compare Pos.compare_cont].
-    constructor; cbn; auto; try (intros; discriminate).
-    intro E'. rewrite E in E'. discriminate.
+    constructor; cbn; auto; try (intros; discriminate);
+      try (intro E'; rewrite E in E'; discriminate).
   - (* K2 *)
     destruct Hm as [E|E]; [destruct (H0 E) as (_ & _ & _ & [X|X] & _); discriminate|].
     destruct (H1 E) as (_ & Hws).
@@ -604,18 +604,18 @@ Proof.
     + destruct (cur_wait s) as [t|]; auto.
       destruct dl as [d|]; [destruct (d <=? clock s); auto|].
       * (* the wait times out *)
-        unfold a_finish. constructor; cbn; auto; try (intros E'; rewrite E in E'; discriminate).
-        -- unfold pipeS, hand_c, hand_r in *. cbn. rewrite gotten_app. cbn. rewrite app_nil_r. rewrite Eq in Heq. exact Heq.
-        -- intros _. split; auto. apply a_begin_waits; auto.
+        unfold a_finish. constructor; cbn; auto; try (intros E'; rewrite E in E'; discriminate);
+          try (intros _; split; auto; apply a_begin_waits; auto).
+        unfold pipeS, hand_c, hand_r, gotten in *. cbn. rewrite flat_map_app. cbn. rewrite app_nil_r. rewrite Eq in Heq. rewrite Eq. exact Heq.
       * constructor; cbn; auto; try (intros E'; rewrite E in E'; discriminate).
     + (* a packet is retrieved *)
       assert (Hp : m_pkt m = true).
       { assert (Hin : In m (emitted s)) by (rewrite <- Heq; apply pipeS_In_sync; rewrite Eq; left; auto).
         rewrite Forall_forall in Hpk. auto. }
-      rewrite Hp. unfold a_finish. constructor; cbn; auto; try (intros E'; rewrite E in E'; discriminate).
-      * unfold pipeS, hand_c, hand_r in *. cbn. rewrite gotten_app. cbn. rewrite Eq in Heq.
-        rewrite <- Heq. rewrite <- !app_assoc. reflexivity.
-      * intros _. split; auto. apply a_begin_waits; auto.
+      rewrite Hp. unfold a_finish. constructor; cbn; auto; try (intros E'; rewrite E in E'; discriminate);
+        try (intros _; split; auto; apply a_begin_waits; auto).
+      unfold pipeS, hand_c, hand_r, gotten in *. cbn. rewrite flat_map_app. cbn. rewrite Eq in Heq.
+      rewrite <- Heq. rewrite <- !app_assoc. reflexivity.
 Qed.
 
 Lemma Inv_S_act : forall cfg, has_conn cfg = true -> legacy_sync cfg = false ->
@@ -678,4 +678,136 @@ Lemma sync_legacy_refuted :
 Proof.
   exists ls_cfg, [OWait (Some 1)], lu_spont, ls_sched. split; [reflexivity|].
   vm_compute. repeat split; reflexivity.
+Qed.
+
+(** ---- Bridge.__init__ --------------------------------------------------------------------- *)
+
+Definition cnt (x : msg) (l : list msg) : nat := length (filter (msg_eqb x) l).
+
+Lemma cnt_app : forall x a b, cnt x (a ++ b) = (cnt x a + cnt x b)%nat.
+Proof. intros. unfold cnt. rewrite filter_app, app_length. reflexivity. Qed.
+
+Lemma cnt_nil : forall x, cnt x [] = 0%nat.
+Proof. reflexivity. Qed.
+
+Lemma cnt_cons : forall x m l, cnt x (m :: l) = (cnt x [m] + cnt x l)%nat.
+Proof. intros. change (m :: l) with ([m] ++ l). apply cnt_app. Qed.
+
+Lemma cnt_filter_app : forall x (f : msg -> bool) a b,
+  cnt x (filter f (a ++ b)) = (cnt x (filter f a) + cnt x (filter f b))%nat.
+Proof. intros. rewrite filter_app. apply cnt_app. Qed.
+
+Global Opaque cnt.
+
+Definition bhand_c (s : bstate) : list msg :=
+  match b_cpc s with
+  | CC_C2 m | CC_C5 m | CC_L1 m | CC_L2 m | CC_A m | CC_T m | CC_Put m | CC_RelD m => [m]
+  | _ => []
+  end.
+Definition bhand_x (s : bstate) : list msg :=
+  match b_xpc s with X_C2 m | X_C5 m | X_R1 m | X_R2 m => [m] | _ => [] end.
+Definition bhand_a (s : bstate) : list msg :=
+  match b_apc s with BU_R1 m | BU_R2 m => [m] | _ => [] end.
+Definition bhand_r (s : bstate) : list msg :=
+  match b_rpc s with BR_P _ m => [m] | _ => [] end.
+
+(** Every message of the scenario, wherever it currently is. *)
+Definition ball (s : bstate) : list msg :=
+  b_peer s ++ b_lost s ++ filter (fun m => negb (m_pkt m)) (b_deliv_o s) ++ b_lq s
+  ++ bhand_c s ++ bhand_x s ++ bhand_a s ++ b_ev_o s ++ b_ev_w s ++ b_outq s
+  ++ bhand_r s ++ msgs_of (b_rbuf s) ++ msgs_of (concat (b_wire s)) ++ msgs_of (concat (b_spont s)).
+
+Record Inv_B (s : bstate) : Prop := mkInvB {
+  ib_filt : b_filt s = None;
+  ib_ready : b_conn s = true -> b_wready s = true;
+  ib_alive : b_rpc s <> BR_Dead;
+  ib_q : forall p m, b_rpc s = BR_P p m ->
+           p <> Q6 /\ p <> Q7 /\ (p = Q8b true -> b_wready s = true);
+  ib_rbuf : b_rpc s = BR_Read -> b_rbuf s = [];
+  ib_w1 : match b_apc s with BA_F1 | BA_F2 | BA_W1b | BA_W1c => True | _ => b_wready s = true end
+}.
+
+Lemma br_next_spec : forall buf,
+  match fst (br_next buf) with
+  | BR_Read => msgs_of buf = [] /\ snd (br_next buf) = []
+  | BR_P p m => p = Q1 /\ msgs_of buf = m :: msgs_of (snd (br_next buf))
+  | BR_Dead => False
+  end.
+Proof. induction buf as [|[m|] b IH]; cbn; auto. Qed.
+
+Ltac c_tac :=
+  unfold ball, bhand_c, bhand_x, bhand_a, bhand_r; cbn;
+  rewrite ?concat_app, ?msgs_of_app, ?cnt_app, ?cnt_filter_app; cbn [concat msgs_of filter app];
+  rewrite ?cnt_app, ?cnt_nil;
+  repeat match goal with
+         | |- context [cnt ?x (?m :: ?l)] =>
+             lazymatch l with [] => fail | _ => rewrite (cnt_cons x m l) end
+         end;
+  rewrite ?cnt_app, ?cnt_nil; try lia.
+
+Lemma bstep_conserves : forall cfg a s x,
+  legacy_ctor cfg = false -> Inv_B s ->
+  Inv_B (bact cfg a s) /\ cnt x (ball (bact cfg a s)) = cnt x (ball s).
+Proof.
+  intros cfg a s x Hl HI. pose proof HI as [Hf Hr Hal Hq Hrb Hw1]. destruct a; cbn [bact].
+  - (* application thread *)
+    unfold bstep_A. rewrite Hl.
+    destruct (b_apc s) eqn:Ea; split_match;
+      (split; [constructor; cbn; auto; try (intros; discriminate); try (rewrite ?Ea in Hw1; exact Hw1); try (rewrite Ea; exact Hw1);
+               try (intros p0 m0 E0; destruct (Hq _ _ E0) as (? & ? & ?); repeat split; auto; fail)
+              | c_tac; rewrite ?Ea, ?Heql; c_tac]).
+  - (* reader *)
+    unfold bstep_R. destruct (b_rpc s) as [|p m|] eqn:Er; [| |contradiction].
+    + destruct (b_wire s) as [|c w] eqn:Ew; [split; [exact HI|reflexivity]|].
+      pose proof (br_next_spec c) as Hn. pose proof (Hrb eq_refl) as Eb.
+      split.
+      * constructor; cbn; auto.
+        -- destruct (fst (br_next c)); try discriminate; contradiction.
+        -- intros p m E. destruct (fst (br_next c)); try discriminate; try contradiction.
+           destruct Hn as (E1 & _). inversion E; subst. repeat split; discriminate.
+        -- intro E. destruct (fst (br_next c)); try discriminate; try contradiction. destruct Hn; auto.
+      * c_tac. rewrite Er, Ew, Eb. c_tac.
+        destruct (fst (br_next c)); try contradiction; destruct Hn as (E1 & E2); rewrite ?E1, ?E2; c_tac.
+    + destruct (Hq _ _ eq_refl) as (H6 & H7 & H8).
+      pose proof (br_next_spec (b_rbuf s)) as Hn.
+      destruct p; try congruence; rewrite ?Hf.
+      * (* Q1 *) split; [constructor; cbn; auto; try discriminate; intros p m0 E; inversion E; subst; repeat split; discriminate|].
+        c_tac; rewrite ?Er; c_tac.
+      * (* Q5 *) split; [constructor; cbn; auto; try discriminate; intros p m0 E; inversion E; subst; repeat split; discriminate|].
+        c_tac; rewrite ?Er; c_tac.
+      * (* Q8l *) split; [constructor; cbn; auto; try discriminate; intros p m0 E; inversion E; subst; repeat split; discriminate|].
+        c_tac; rewrite ?Er; c_tac.
+      * (* Q8a *) split; [constructor; cbn; auto; try discriminate; intros p m0 E; inversion E; subst; repeat split; try discriminate|].
+        -- intro E'. inversion E' as [E'']. rewrite E''. apply Hr; auto.
+        -- c_tac; rewrite ?Er; c_tac.
+      * (* Q8b *)
+        destruct to_wrapper.
+        -- rewrite (H8 eq_refl). split.
+           ++ constructor; cbn; auto.
+              ** destruct (fst (br_next (b_rbuf s))); try discriminate; contradiction.
+              ** intros p m0 E. destruct (fst (br_next (b_rbuf s))); try discriminate; try contradiction.
+                 destruct Hn as (E1 & _). inversion E; subst. repeat split; discriminate.
+              ** intro E. destruct (fst (br_next (b_rbuf s))); try discriminate; try contradiction. destruct Hn; auto.
+           ++ c_tac. rewrite Er. c_tac.
+              destruct (fst (br_next (b_rbuf s))); try contradiction; destruct Hn as (E1 & E2); rewrite ?E1, ?E2; c_tac.
+        -- split.
+           ++ constructor; cbn; auto.
+              ** destruct (fst (br_next (b_rbuf s))); try discriminate; contradiction.
+              ** intros p m0 E. destruct (fst (br_next (b_rbuf s))); try discriminate; try contradiction.
+                 destruct Hn as (E1 & _). inversion E; subst. repeat split; discriminate.
+              ** intro E. destruct (fst (br_next (b_rbuf s))); try discriminate; try contradiction. destruct Hn; auto.
+           ++ c_tac. rewrite Er. c_tac.
+              destruct (fst (br_next (b_rbuf s))); try contradiction; destruct Hn as (E1 & E2); rewrite ?E1, ?E2; c_tac.
+  - (* old connector I/O thread *)
+    unfold bstep_C.
+    destruct (b_cpc s) eqn:Ec; split_match;
+      (split; [constructor; cbn; auto | c_tac; rewrite ?Ec, ?Heql, ?Heqb; c_tac]).
+  - (* wrapper I/O thread *)
+    unfold bstep_X.
+    destruct (b_xpc s) eqn:Ex; split_match;
+      (split; [constructor; cbn; auto | c_tac; rewrite ?Ex, ?Heql, ?Heqb; c_tac]).
+  - (* the device emits *)
+    unfold bemit. destruct (b_spont s) as [|c r] eqn:Es; [split; [exact HI|reflexivity]|].
+    split; [constructor; cbn; auto|]. c_tac. rewrite Es. c_tac.
+  - split; [exact HI|reflexivity].
 Qed.
